@@ -58,7 +58,7 @@ def cases(draw, tier="quick"):
             for i in range(a, b + 1):
                 vals[row * n + i] = "nan"
     lab = gen.draw_labels(
-        draw, n, kinds=["int", "int", "float", "str"], max_groups=4, missing=(func != "nancumsum") or draw(st.integers(0, 9)) == 0,
+        draw, n, kinds=["int", "int", "float", "str", "u1"], max_groups=4, missing=(func != "nancumsum") or draw(st.integers(0, 9)) == 0,
         styles=["random", "periodic", "runs", "blocks", "constant", "sorted"],
     )  # fmt: skip
     return {
